@@ -39,6 +39,7 @@ type sig struct {
 	dropRes  bool
 	recv     string // receiver type name
 	nstate   int
+	fieldParams []string // struct fields passed as leading parameters (callers must pass the same selectors)
 }
 
 var sigs = map[string]*sig{} // Go function/method name -> signature of its translation
@@ -50,6 +51,8 @@ type sctx struct {
 	ignore map[string]bool
 	fuel   int
 	nfix   int
+	rtype  string            // Gallina type of the value the translated function returns
+	extra  []string          // parameters introduced by opaque calls
 }
 
 func gname(s string) string { return strings.ReplaceAll(s, ".", "_") }
@@ -403,6 +406,9 @@ func (c *sctx) block(l []ast.Stmt, k func() string) string {
 			}
 			return "(" + c.bindCall(sg, args, names) + rest() + ")"
 		}
+		if call, ok := s.X.(*ast.CallExpr); ok && strings.HasPrefix(selKey(call.Fun), "log.") {
+			return rest() // logging has no effect on the translated state
+		}
 		fail("unsupported expression statement")
 	case *ast.AssignStmt:
 		if op, ok := assignOps[s.Tok]; ok {
@@ -417,6 +423,33 @@ func (c *sctx) block(l []ast.Stmt, k func() string) string {
 			return "(" + c.setVar(s.Lhs[0], val, t, false) + rest() + ")"
 		}
 		define := s.Tok == token.DEFINE
+		if len(s.Rhs) == 1 {
+			if call, ok := s.Rhs[0].(*ast.CallExpr); ok {
+				if op, ok := c.t.Opaque[selKey(call.Fun)]; ok {
+					// the value read from outside is a parameter of the translation; a second result is a nil error
+					id0, ok0 := s.Lhs[0].(*ast.Ident)
+					if !ok0 {
+						fail("opaque call bound to a non-identifier")
+					}
+					sl, ok := c.t.Slices[op.Bind]
+					if !ok {
+						fail("opaque call %s: parameter %s is not declared under slices", selKey(call.Fun), op.Bind)
+					}
+					_ = sl
+					c.v.types[id0.Name] = "slice:" + op.Bind
+					for _, lh := range s.Lhs[1:] {
+						if id, ok := lh.(*ast.Ident); ok && id.Name != "_" {
+							c.v.types[id.Name] = "error"
+						}
+					}
+					pre := ""
+					if id0.Name != op.Bind {
+						pre = "let " + id0.Name + " := " + op.Bind + " in\n   "
+					}
+					return "(" + pre + rest() + ")"
+				}
+			}
+		}
 		// x, err := translatedCall(...)   /   err := effect(...)
 		if len(s.Rhs) == 1 {
 			if ev, ok := c.effectCall(s.Rhs[0]); ok {
@@ -577,6 +610,70 @@ func (c *sctx) block(l []ast.Stmt, k func() string) string {
 			out = "(if " + arms[i].cond + "\n   then " + branch(arms[i].body) + "\n   else " + out + ")"
 		}
 		return out
+	case *ast.RangeStmt:
+		xs, ok := s.X.(*ast.Ident)
+		if !ok || !strings.HasPrefix(c.v.types[xs.Name], "slice:") {
+			fail("range over something that is not a declared slice")
+		}
+		sl := c.t.Slices[strings.TrimPrefix(c.v.types[xs.Name], "slice:")]
+		if s.Key != nil {
+			if id, ok := s.Key.(*ast.Ident); !ok || id.Name != "_" {
+				fail("range with an index variable")
+			}
+		}
+		ev, ok := s.Value.(*ast.Ident)
+		if !ok {
+			fail("range without an element variable")
+		}
+		ast.Inspect(s.Body, func(n ast.Node) bool {
+			switch b := n.(type) {
+			case *ast.BranchStmt:
+				fail("%s inside a loop", b.Tok)
+			case *ast.CallExpr:
+				if _, ok := c.effectCall(b); ok {
+					fail("effect inside a loop")
+				}
+			}
+			return true
+		})
+		var carried []string
+		assigned(s.Body.List, map[string]bool{}, &carried)
+		var names []string
+		for _, v := range carried {
+			if _, ok := c.isState(v); !ok && c.v.types[v] == "" {
+				continue // declared inside the body
+			}
+			names = append(names, gname(v))
+		}
+		c.nfix++
+		loop, kn := fmt.Sprintf("loop%d_", c.nfix), fmt.Sprintf("k%d_", c.nfix)
+		var enames []string
+		for _, f := range sl.Fields {
+			c.v.fields[ev.Name+"."+f.Name] = f.Type
+			enames = append(enames, gname(ev.Name+"."+f.Name))
+		}
+		epat := "let '(" + strings.Join(enames, ", ") + ") := e_ in "
+		if len(enames) == 1 {
+			epat = "let " + enames[0] + " := e_ in "
+		}
+		kargs, largs, lpars := "tt", "", ""
+		if len(names) > 0 {
+			kargs = strings.Join(names, " ")
+			largs = " " + kargs
+			lpars = " (" + kargs + " : Z)"
+		}
+		kdef := "fun (_ : unit) => "
+		if len(names) > 0 {
+			kdef = "fun (" + kargs + " : Z) => "
+		}
+		// control reaches the end of the list: the rest of the function; a `return` in the body leaves at once
+		restE := rest()
+		saved := c.v.types
+		c.v.types = cloneTypes(saved)
+		bodyE := c.block(s.Body.List, func() string { return loop + " l_'" + largs })
+		c.v.types = saved
+		return "(let " + kn + " := " + kdef + restE + " in\n   (fix " + loop + " (l_ : list " + sliceElemType(sl) + ")" + lpars + " {struct l_} : " + c.rtype + " :=\n     match l_ with\n     | nil => " + kn + " " + kargs +
+			"\n     | e_ :: l_' => " + epat + bodyE + "\n     end) " + xs.Name + largs + ")"
 	case *ast.ForStmt:
 		pre := ""
 		if s.Init != nil {
@@ -637,6 +734,13 @@ func (c *sctx) block(l []ast.Stmt, k func() string) string {
 	return ""
 }
 
+func sliceElemType(sl sliceSpec) string {
+	if len(sl.Fields) == 1 {
+		return "Z"
+	}
+	return "(" + strings.TrimSuffix(strings.Repeat("Z * ", len(sl.Fields)), " * ") + ")"
+}
+
 func translateStateful(t *target, fd *ast.FuncDecl, v *env) string {
 	c := &sctx{v: v, t: t, state: t.State, ignore: map[string]bool{}, fuel: t.Fuel}
 	if c.fuel == 0 {
@@ -686,6 +790,46 @@ func translateStateful(t *target, fd *ast.FuncDecl, v *env) string {
 		if r != "error" {
 			t.Results = append(t.Results, r)
 			nres++
+		}
+	}
+	// fields read through struct-typed parameters, then the values read from outside (opaque calls)
+	var fps []string
+	for k := range t.Fields {
+		if _, isState := c.isState(k); !isState {
+			fps = append(fps, k)
+		}
+	}
+	sortStrings(fps)
+	var lead []string
+	for _, k := range fps {
+		lead = append(lead, "("+gname(k)+" : "+map[bool]string{true: "bool", false: "Z"}[t.Fields[k] == "bool"]+")")
+		sg.fieldParams = append(sg.fieldParams, k)
+	}
+	var binds []string
+	for _, op := range t.Opaque {
+		binds = append(binds, op.Bind)
+	}
+	sortStrings(binds)
+	for _, b := range binds {
+		lead = append(lead, "("+b+" : list "+sliceElemType(t.Slices[b])+")")
+	}
+	params = append(lead, params...)
+	{
+		rt := "unit"
+		if !t.DropResult && nres > 0 {
+			var rs []string
+			for _, r := range t.Results {
+				rs = append(rs, map[bool]string{true: "bool", false: "Z"}[r == "bool"])
+			}
+			rt = strings.Join(rs, " * ")
+			if nres > 1 {
+				rt = "(" + rt + ")"
+			}
+		}
+		if t.Mode == "pure2" {
+			c.rtype = rt
+		} else {
+			c.rtype = rt + " * " + stateType(len(t.State)) + " * list (Z * list Z)"
 		}
 	}
 	// recursion is not supported: the signature becomes visible to later targets only
